@@ -49,11 +49,11 @@ RefLookup(p, blk, addr, i, n) ==
 
 \* is the program outside what the property settles?  (.set mixed with labels of the same name,
 \* a .set used before its first assignment, export of a local or unknown name)
+SetInBlock(p, blk, n) == \E j \in 1..Len(p) : p[j].k = "set" /\ p[j].n = n /\ blk[j] # 0
 Unsettled(p, blk) ==
   \/ \E i, j \in 1..Len(p) : p[i].k = "set" /\ p[j].k \in {"label", "func"} /\ p[i].n = p[j].n
   \/ \E i \in 1..Len(p) : p[i].k = "use" /\ (\E j \in 1..Len(p) : p[j].k = "set" /\ p[j].n = p[i].n)
                             /\ ~(\E j \in 1..(i - 1) : p[j].k = "set" /\ p[j].n = p[i].n)
-  \/ \E i \in 1..Len(p) : p[i].k = "set" /\ blk[i] # 0
   \* a block still open at the end of the file
   \/ LET opens == {i \in 1..Len(p) : Opens(p[i])} IN
      opens # {} /\ ~(\E j \in 1..Len(p) : Closes(p[j]) /\ \A i \in opens : i < j)
@@ -72,21 +72,26 @@ RefRun(p) ==
        IN IF Unsettled(p, blk) THEN [k |-> "any", words |-> <<>>, exports |-> {}]
           ELSE IF dup \/ undef \/ expbad THEN [k |-> "rej", words |-> <<>>, exports |-> {}]
           ELSE [k |-> "ok",
-                words |-> [i \in 1..Len(p) |-> IF p[i].k = "use" THEN RefLookup(p, blk, addr, i, p[i].n).v ELSE -1],
+                \* -1: not a use; -2: a use of a .set name that is assigned inside a block (what a .set inside a
+                \* scope means for uses elsewhere is not settled by the property): any value
+                words |-> [i \in 1..Len(p) |-> IF p[i].k # "use" THEN -1
+                                               ELSE IF SetInBlock(p, blk, p[i].n) THEN -2
+                                               ELSE RefLookup(p, blk, addr, i, p[i].n).v],
                 exports |-> {[n |-> p[i].n, v |-> addr[CHOOSE j \in DefsOf(p, blk, 0, p[i].n) : TRUE]] : i \in {j \in 1..Len(p) : p[j].k = "export"}}]
 
 \* obs = [k, words (sequence of the .dc32 values in program order), exports (sequence of [n, v])]
 UseWords(r) == SelectSeq(r.words, LAMBDA w : w # -1)
+SameWords(o, w) == Len(o) = Len(w) /\ \A i \in 1..Len(w) : w[i] = -2 \/ o[i] = w[i]
 Conforms(p, obs) ==
   LET r == RefRun(p) IN
   IF r.k = "any" THEN TRUE
   ELSE IF r.k = "rej" THEN obs.k = "rej"
-  ELSE obs.k = "ok" /\ obs.words = UseWords(r)
+  ELSE obs.k = "ok" /\ SameWords(obs.words, UseWords(r))
        /\ {obs.exports[j] : j \in 1..Len(obs.exports)} = r.exports
 Why(p, obs) ==
   LET r == RefRun(p) IN
   IF r.k = "rej" THEN "reference rejects (duplicate, undefined, nested scope or bad export), code accepted"
   ELSE IF obs.k # "ok" THEN "reference accepts, code rejected"
-  ELSE IF obs.words # UseWords(r) THEN "a reference resolved to another definition"
+  ELSE IF ~SameWords(obs.words, UseWords(r)) THEN "a reference resolved to another definition"
   ELSE "exported symbols differ"
 =============================================================================
